@@ -76,6 +76,8 @@ type PropDef struct {
 	Case func(t *testing.T, c *CaseCtx, idx int)
 	// Run executes exactly the run recorded on the tape.
 	Run func(t *testing.T, tape *Tape) *Outcome
+	// Extra, if set, adds property-specific facts to the worker result.
+	Extra func(job *Job) map[string]any
 }
 
 // CaseCtx is handed to PropDef.Case.
@@ -350,6 +352,11 @@ func RunWorker(t *testing.T, job *Job) *WorkerResult {
 	}
 	res.Distinct = len(c.hashes)
 	res.WallS = time.Since(t0).Seconds()
+	if def.Extra != nil {
+		for k, v := range def.Extra(job) {
+			res.Extra[k] = v
+		}
+	}
 	if job.HashOut != "" {
 		hs := make([]uint64, 0, len(c.hashes))
 		for h := range c.hashes {
